@@ -266,6 +266,11 @@ def judge_factory(rec, cfg):
                     # C15: an index / ROUND_ROBIN policy decides on ONE edge per item; a non-blocking node consults exactly that edge
                     pol15 = c.get("out", "FIRST_AVAILABLE")
                     probed = [int(x.split()[1][1:]) for x in cans]
+                    sel15 = [int(x.split()[1]) for x in a["calls"] if x.startswith("sel ")]
+                    if isinstance(pol15, (list, tuple)) and sel15 and probed and 0 <= sel15[0] < 9 and probed[0] != sel15[0]:
+                        v("C15", "user-obeyed", f"non-blocking {kind} {nid} at t={a['t']}: the selector answered {sel15[0]}, yet the node decided on out-edge {probed[0]}")
+                        v("C09", "probed-unselected", f"non-blocking {kind} {nid} at t={a['t']}: its policy selected out-edge {sel15[0]}, yet it probed out-edge {probed[0]}: "
+                                                      f"the item must be pushed to the selected edge if that has room and dropped otherwise")
                     if isinstance(pol15, int) and probed and probed[0] != pol15:
                         v("C15", "constant", f"non-blocking {kind} {nid} at t={a['t']}: constant out-edge {pol15} selected, yet it decided on out-edge {probed[0]}")
                     if pol15 == "ROUND_ROBIN" and kind == "source" and probed:
@@ -549,13 +554,21 @@ def judge_pack_node(rec, nid, kind, n, c, acts, put_by, got_by, emit, pending, w
     outsel = list(st["out_edge_selection"]); outp = c.get("out", "FIRST_AVAILABLE")
     puts = [int(x.split()[1][1:]) for a in acts for x in a["calls"] if x.startswith("put ")]
     if outp == "FIRST_AVAILABLE":
-        if not (0 <= len(puts) - len(outsel) <= 1) or outsel != puts[:len(outsel)]:
+        # a run that ended with an error somewhere else stopped in the middle of an instant: the last decision may be recorded while its push
+        # process (started in the same instant) has not run yet
+        lo = -1 if rec.crash is not None else 0
+        k_ = min(len(puts), len(outsel))
+        if not (lo <= len(puts) - len(outsel) <= 1) or outsel[:k_] != puts[:k_]:
             v("C15", "outsel-history", f"{kind} {nid}: out_edge_selection {outsel[:8]} but units were pushed to out-edges {puts[:8]}")
     else:
         if outp == "ROUND_ROBIN" and outsel != [i % nout for i in range(len(outsel))]:
             v("C15", "round-robin", f"{kind} {nid}: ROUND_ROBIN out-edge sequence is {outsel[:10]}")
         if isinstance(outp, int) and any(x != outp for x in puts):
             v("C15", "constant", f"{kind} {nid}: constant out-edge {outp} but pushed to {sorted(set(puts))}")
+        # an index / ROUND_ROBIN / user policy records its choice when it is made, i.e. before the unit is pushed (or dropped): every push has
+        # its entry, in order
+        if len(outsel) < len(puts):
+            v("C15", "outsel-missing", f"{kind} {nid}: {len(puts)} units were pushed to out-edges {puts[:8]} but out_edge_selection has only {len(outsel)} entries {outsel[:8]}")
     if kind == "splitter":
         insel = list(st["in_edge_selection"]); inp = c.get("inp", "FIRST_AVAILABLE")
         gets = [int(x.split()[1][1:]) for a in acts for x in a["calls"] if x.startswith("get ")]
